@@ -111,7 +111,7 @@ def parse(out, res):
             res.errors.append("[%d] %s" % (code, text[:2000]))
         elif code in (2772, 2221, 2773, 2774, 2775):
             # coverage lines: "<Action line..., col... of module M>: distinct:generated"
-            g = re.match(r"<(\w+) line .*? of module (\w+)(?: \(.*?\))?>: (\d+):(\d+)", text.replace(",", ""))
+            g = re.match(r"<([\w!]+) line .*? of module (\w+)(?: \(.*?\))?>: (\d+):(\d+)", text.replace(",", ""))
             if g:
                 res.coverage[g.group(2) + "!" + g.group(1)] = (int(g.group(4)), int(g.group(3)))
     # anything outside tool messages (PrintT output goes through message 2102? keep raw lines too)
